@@ -176,7 +176,7 @@ func (e *TermEnv) term(v ssa.Value) *T {
 	case *ssa.FreeVar:
 		return &T{K: "free", Name: "fv:" + x.Name()}
 	case *ssa.Global:
-		return &T{K: "global", Name: "g:" + x.Pkg.Pkg.Name() + "." + x.Name()}
+		return &T{K: "global", Name: "g:" + x.Pkg.Pkg.Name() + "." + x.Name(), V: x}
 	case *ssa.FieldAddr:
 		return &T{K: "addrfield", Name: fieldName(x.X.Type(), x.Field), Args: []*T{e.Term(x.X)}}
 	case *ssa.Field:
@@ -295,6 +295,30 @@ func evalTerm(t *T, asg map[string]*big.Int) (*big.Int, bool) {
 		return v, true
 	}
 	switch t.K {
+	case "index":
+		// a lookup in a constant table with a key that evaluates
+		if tab := tableOfTerm(t.Args[0]); tab != nil {
+			if k, ok := evalTerm(t.Args[1], asg); ok && k.IsInt64() {
+				return tab.at(k.Int64()), true
+			}
+		}
+		return nil, false
+	case "extract":
+		// v, ok := table[key]
+		if len(t.Args) == 1 && t.Args[0].K == "index" {
+			if tab := tableOfTerm(t.Args[0].Args[0]); tab != nil {
+				if k, ok := evalTerm(t.Args[0].Args[1], asg); ok && k.IsInt64() {
+					if t.Name == "0" {
+						return tab.at(k.Int64()), true
+					}
+					if _, present := tab.vals[k.Int64()]; present {
+						return big.NewInt(1), true
+					}
+					return big.NewInt(0), true
+				}
+			}
+		}
+		return nil, false
 	case "const":
 		if t.C == nil {
 			return nil, false
